@@ -116,12 +116,14 @@ where T: Ring + Bridge, for<'x> &'x T: RingOps<T> {
     let zero_exps = vec![0i64; X::NV];
     for (k, c) in m.iter().take(4) {
         if &p.coeff(&X::from_exps(k)).to_o() != c { return Some(format!("coeff({:?}) differs from the stored term", k)) }
+        if &p.coeff_for(X::from_exps(k).deg()).to_o() != c { return Some(format!("coeff_for(degree of {:?}) differs from the stored term", k)) }
     }
     let absent: Vec<i64> = (0..X::NV).map(|i| 7 + i as i64).collect();
     if !m.contains_key(&absent) && !p.coeff(&X::from_exps(&absent)).is_zero() { return Some(format!("coeff of the absent monomial {:?} is not zero", absent)) }
     let c0 = m.get(&zero_exps).cloned().unwrap_or_else(T::O::o0);
     if p.const_term().to_o() != c0 { return Some(format!("const_term = {:?}, the polynomial's constant term is {:?}", p.const_term().to_o(), c0)) }
     if p.is_const() != m.keys().all(|k| k == &zero_exps) { return Some(format!("is_const = {} for {}", p.is_const(), m_show(m))) }
+    if &p.map_coeffs::<T, _>(|c| c.clone()) != p { return Some("map_coeffs(identity) is not the same polynomial".into()) }
     let mono = m.len() == 1 && m.values().next().map(|c| c.is1()).unwrap_or(false);
     if p.is_mono() != mono { return Some(format!("is_mono = {} for {}", p.is_mono(), m_show(m))) }
     match (p.as_mono(), mono) {
